@@ -6,20 +6,32 @@ Import ListNotations.
 
 (* ---------- the oracle of the conc engine decides the hypothesis of the theorem ---------- *)
 
-Lemma no_1401_acyclic : forall c, ~ In 1401%N (conc_check_case c) -> acyclic (cc_edges c) = true.
+Lemma no_1401_order_ok : forall c, ~ In 1401%N (conc_check_case c) ->
+  exists rk, order_ok (is_single c) rk (cc_edges c) = true.
 Proof.
-  intros c H. unfold conc_check_case, lock_order_ok in H.
-  destruct (acyclic (cc_edges c)); [reflexivity|].
-  exfalso. apply H. cbn. left. reflexivity.
+  intros c H. unfold conc_check_case in H.
+  destruct (lock_order_ok c) eqn:Hok.
+  - unfold lock_order_ok in Hok. destruct (acyclic (untag (cc_edges c))) eqn:Ha.
+    + exists (rank (untag (cc_edges c))).
+      (* the plain check implies the refined one for every choice of single roles *)
+      pose proof (acyclic_order_ok (cc_edges c) Ha) as H0.
+      unfold order_ok in *. rewrite forallb_forall in *. intros e He. specialize (H0 e He).
+      destruct (Nat.ltb (rank (untag (cc_edges c)) (tfrom e)) (rank (untag (cc_edges c)) (tto e))).
+      reflexivity.
+      destruct (negb (flat (rank (untag (cc_edges c))) e)). discriminate H0. discriminate H0.
+    + exists (cert_rank c). exact Hok.
+  - exfalso. apply H. cbn. left. reflexivity.
 Qed.
 
 (* a run on which kind 1401 is not reported has a nesting relation under which no program that nests its
-   locks only as observed can deadlock on them *)
+   locks only as observed (per role), with one thread per single role, can deadlock on them *)
 Theorem oracle_lock_order : forall c, ~ In 1401%N (conc_check_case c) ->
-  forall can_grant s, reachable (cc_edges c) can_grant s ->
+  forall (role_of : thread -> role) (can_grant : state -> thread -> lock -> Prop),
+  singles_respected role_of (is_single c) ->
+  forall s, reachable (cc_edges c) role_of can_grant s ->
   (forall D, ~ deadlocked s D) /\ (forall cyc, ~ wait_cycle s cyc).
 Proof.
-  intros c H g s Hr. pose proof (no_1401_acyclic c H) as Ha. split.
-  - intro D. apply (acyclic_no_deadlocked_set (cc_edges c) g Ha s Hr).
-  - intro cyc. apply (acyclic_no_deadlock (cc_edges c) g Ha s Hr).
+  intros c H role_of g Hs s Hr. destruct (no_1401_order_ok c H) as [rk Hok]. split.
+  - intro D. apply (order_ok_no_deadlocked_set (cc_edges c) role_of g (is_single c) rk Hok Hs s Hr).
+  - intro cyc. apply (order_ok_no_deadlock (cc_edges c) role_of g (is_single c) rk Hok Hs s Hr).
 Qed.
